@@ -29,9 +29,39 @@ func (f *Frame) loopSpec(ord int) *LoopSpec {
 	return f.contract.Loops[ord]
 }
 
-func (f *Frame) execFor(x *ast.ForStmt, st *State, label string) []Outcome {
+// staticLoopOrd numbers the loops of the frame's function in source order (pre-order of the AST,
+// function literals included), independent of the path taken -- so `loop N` in a contract denotes
+// the same loop on every path.
+func (f *Frame) staticLoopOrd(n ast.Node) int {
+	if f.loopOrds == nil {
+		f.loopOrds = map[ast.Node]int{}
+		var body ast.Node
+		if f.decl != nil && f.decl.Body != nil {
+			body = f.decl.Body
+		} else if f.lit != nil {
+			body = f.lit.Body
+		}
+		if body != nil {
+			k := 0
+			ast.Inspect(body, func(x ast.Node) bool {
+				switch x.(type) {
+				case *ast.ForStmt, *ast.RangeStmt:
+					k++
+					f.loopOrds[x] = k
+				}
+				return true
+			})
+		}
+	}
+	if o, ok := f.loopOrds[n]; ok {
+		return o
+	}
 	f.loopN++
-	ord := f.loopN
+	return 1000 + f.loopN
+}
+
+func (f *Frame) execFor(x *ast.ForStmt, st *State, label string) []Outcome {
+	ord := f.staticLoopOrd(x)
 	var outs []Outcome
 	pre := []*State{st}
 	if x.Init != nil {
@@ -66,8 +96,7 @@ func (f *Frame) execFor(x *ast.ForStmt, st *State, label string) []Outcome {
 
 func (f *Frame) execRange(x *ast.RangeStmt, st *State, label string) []Outcome {
 	in := f.in
-	f.loopN++
-	ord := f.loopN
+	ord := f.staticLoopOrd(x)
 	sh := &loopShape{pos: x.Pos(), ord: ord, label: label, body: x.Body}
 	xt := f.typeOf(x.X)
 	// hidden index cell
@@ -176,6 +205,10 @@ func (f *Frame) execRangeMap(x *ast.RangeStmt, sh *loopShape, mt *types.Map, st 
 		vis := getVisited(st)
 		k := in.D.fresh("rk", ks)
 		st.assume(And(Select(mc0.Has, k), Not(Select(vis, k))))
+		if ks == SInt {
+			// keys of the map are values of the key type
+			st.assume(inRange(k, mt.Key()))
+		}
 		cur := in.load(st, m.M, f).(MapC)
 		// entries removed during iteration are not produced
 		st.assume(Select(cur.Has, k))
